@@ -19,6 +19,8 @@ import (
 	"encoding/binary"
 	"errors"
 	"fmt"
+	"math"
+	"runtime"
 	"sort"
 	"strconv"
 	"sync"
@@ -172,6 +174,7 @@ type vXP struct {
 	signal    pipeline.Signal
 	consumers int
 	batch     *queuebatch.BatchConfig
+	legacy    bool // the batch settings come through the deprecated exporter batcher option (WithBatcher)
 	longDelay bool
 
 	mu        sync.Mutex
@@ -262,10 +265,16 @@ func (p *vXP) build() error {
 	qCfg.StorageID = &storageID
 	qCfg.NumConsumers = p.consumers
 	qCfg.QueueSize = 100000
+	var extra []Option
 	if p.batch != nil {
 		qCfg.Sizer = request.SizerTypeItems
-		b := *p.batch
-		qCfg.Batch = &b
+		if p.legacy {
+			extra = append(extra, WithBatcher(BatcherConfig{Enabled: true, FlushTimeout: p.batch.FlushTimeout,
+				SizeConfig: SizeConfig{Sizer: request.SizerTypeItems, MinSize: p.batch.MinSize, MaxSize: p.batch.MaxSize}}))
+		} else {
+			b := *p.batch
+			qCfg.Batch = &b
+		}
 	}
 	rCfg := configretry.NewDefaultBackOffConfig()
 	rCfg.InitialInterval = 2 * time.Millisecond
@@ -274,15 +283,15 @@ func (p *vXP) build() error {
 	rCfg.MaxElapsedTime = 0 // retry for ever: the only final outcomes are success and a permanent refusal
 	set := exportertest.NewNopSettings(exportertest.NopType)
 	set.ID = p.id
-	be, err := NewBaseExporter(set, p.signal, p.export,
+	be, err := NewBaseExporter(set, p.signal, p.export, append([]Option{
 		WithQueueBatch(qCfg, QueueBatchSettings[request.Request]{
 			Encoding: vXEnc{},
 			Sizers: map[request.SizerType]request.Sizer[request.Request]{
 				request.SizerTypeRequests: request.RequestsSizer[request.Request]{},
 				request.SizerTypeItems:    request.NewItemsSizer(),
 			},
-		}),
-		WithRetry(rCfg))
+		})},
+		append(extra, WithRetry(rCfg))...)...)
 	p.be = be
 	return err
 }
@@ -323,6 +332,7 @@ func TestVerifC01Exporter(t *testing.T) {
 	defer out0.Close()
 	out := &vXOut{vOut: out0}
 	rng := vNewRand(11)
+	vRunQueueConfigCases(out, rng)
 	n := vBudget(40, 6)
 	idA := component.MustNewIDWithName("vexp", "a")
 	idB := component.MustNewIDWithName("vexp", "b")
@@ -355,11 +365,12 @@ func TestVerifC01Exporter(t *testing.T) {
 				blocked: make(chan struct{}), release: make(chan struct{}), accepted: map[uint64]bool{}}
 			if rng.Intn(2) == 0 {
 				p.batch = &queuebatch.BatchConfig{FlushTimeout: 5 * time.Millisecond, MinSize: int64(rng.Pick(3, 1) * 2), MaxSize: int64(2 + rng.Intn(3))}
+				p.legacy = rng.Intn(3) == 0
 			}
 			ps = append(ps, p)
 			term += fmt.Sprintf(" | exporter%d id=%s signal=%s consumers=%d long_backoff=%v", p.idx, p.id, p.signal, p.consumers, p.longDelay)
 			if p.batch != nil {
-				term += fmt.Sprintf(" batch(min=%d,max=%d)", p.batch.MinSize, p.batch.MaxSize)
+				term += fmt.Sprintf(" batch(min=%d,max=%d,legacy_batcher_option=%v)", p.batch.MinSize, p.batch.MaxSize, p.legacy)
 			}
 		}
 		// requests and item kinds
@@ -449,6 +460,11 @@ func TestVerifC01Exporter(t *testing.T) {
 			want := map[string]bool{}
 			for _, p := range ps {
 				want[p.clientKey()] = true
+			}
+			for _, p := range ps {
+				if ext.handed[p.clientKey()] == 0 {
+					out.Oracle("exporter-storage-client-never-requested", term, fmt.Sprintf("%s: exporter%d has sending_queue::storage configured but never asked the extension for client %q: its queue does not persist anything", stage, p.idx, p.clientKey()))
+				}
 			}
 			for key, cnt := range ext.handed {
 				if cnt > 1 {
@@ -587,6 +603,9 @@ func TestVerifC01Exporter(t *testing.T) {
 			if p.batch != nil {
 				out.Stat("exporter_with_batcher", 1)
 			}
+			if p.legacy {
+				out.Stat("exporter_with_legacy_batcher_option", 1)
+			}
 		}
 		// second incarnation, healthy destinations
 		for _, p := range ps {
@@ -657,5 +676,70 @@ func TestVerifC01Exporter(t *testing.T) {
 			}
 		}
 		ext.mu.Unlock()
+	}
+}
+
+// ---- newQueueBatchConfig: the configuration handed to the queue ------------------------------------------
+func vQCfgTerm(cfg queuebatch.Config, storages []component.ID) string {
+	sizer := 0
+	switch cfg.Sizer {
+	case request.SizerTypeItems:
+		sizer = 1
+	case request.SizerTypeBytes:
+		sizer = 2
+	}
+	st := "None"
+	if cfg.StorageID != nil {
+		idx := 99
+		for k, x := range storages {
+			if x == *cfg.StorageID {
+				idx = k
+			}
+		}
+		st = "(Some " + vNat(idx) + ")"
+	}
+	bt := "None"
+	if cfg.Batch != nil {
+		bt = "(Some (" + vZ(int64(cfg.Batch.FlushTimeout)) + ", " + vZ(cfg.Batch.MinSize) + ", " + vZ(cfg.Batch.MaxSize) + "))"
+	}
+	return "(" + vBool(cfg.Enabled) + ", " + vBool(cfg.WaitForResult) + ", " + vNat(sizer) + ", " + vZ(cfg.QueueSize) + ", " +
+		vBool(cfg.BlockOnOverflow) + ", " + st + ", " + vZ(int64(cfg.NumConsumers)) + ", " + bt + ")"
+}
+
+func vRunQueueConfigCases(out *vXOut, rng *vRand) {
+	storages := []component.ID{component.MustNewID("file_storage"), component.MustNewIDWithName("file_storage", "b")}
+	n := vBudget(60, 6)
+	for i := 0; i < n; i++ {
+		q := queuebatch.Config{Enabled: rng.Intn(5) != 0, WaitForResult: rng.Intn(4) == 0, Sizer: request.SizerTypeRequests,
+			QueueSize: int64(1 + rng.Intn(5000)), BlockOnOverflow: rng.Intn(2) == 0, NumConsumers: 1 + rng.Intn(16)}
+		switch rng.Intn(3) {
+		case 1:
+			q.Sizer = request.SizerTypeItems
+		case 2:
+			q.Sizer = request.SizerTypeBytes
+		}
+		if rng.Intn(3) != 0 {
+			id := storages[rng.Intn(len(storages))]
+			q.StorageID = &id
+		}
+		if rng.Intn(4) == 0 {
+			q.Batch = &queuebatch.BatchConfig{FlushTimeout: time.Duration(1+rng.Intn(100)) * time.Millisecond, MinSize: int64(rng.Intn(50)), MaxSize: int64(rng.Intn(200))}
+		}
+		b := BatcherConfig{Enabled: rng.Intn(3) != 0, FlushTimeout: time.Duration(1+rng.Intn(900)) * time.Millisecond,
+			SizeConfig: SizeConfig{Sizer: request.SizerTypeItems, MinSize: int64(rng.Intn(9000)), MaxSize: int64(rng.Intn(3)) * 10000}}
+		before := vQCfgTerm(q, storages)
+		r := newQueueBatchConfig(q, b)
+		term := "CQCfg " + vZ(int64(math.MaxInt)) + " " + vZ(int64(runtime.NumCPU())) + " " + before + " (" + vBool(b.Enabled) + ", " +
+			vZ(int64(b.FlushTimeout)) + ", " + vZ(b.MinSize) + ", " + vZ(b.MaxSize) + ") " + vQCfgTerm(r, storages)
+		out.Case(true, term)
+		out.Stat(fmt.Sprintf("qcfg_queue_%v_batcher_%v_storage_%v", q.Enabled, b.Enabled, q.StorageID != nil), 1)
+		// direct oracle: an enabled sending queue keeps its storage, capacity and overflow behaviour whatever the batcher option says
+		if q.Enabled {
+			same := (r.StorageID == nil) == (q.StorageID == nil) && (q.StorageID == nil || *r.StorageID == *q.StorageID)
+			if !same || r.QueueSize != q.QueueSize || r.BlockOnOverflow != q.BlockOnOverflow || !r.Enabled {
+				out.Oracle("queue-config-loses-storage-or-capacity", term, fmt.Sprintf("queue storage=%v size=%d block=%v -> storage=%v size=%d block=%v enabled=%v",
+					q.StorageID, q.QueueSize, q.BlockOnOverflow, r.StorageID, r.QueueSize, r.BlockOnOverflow, r.Enabled))
+			}
+		}
 	}
 }
